@@ -1,4 +1,5 @@
 import LP.Props.C12
+import LP.Props.C12Exact
 #print axioms LP.Eval.C12_negate
 #print axioms LP.Eval.C12_root_constraint
 #print axioms LP.Eval.C10_sign_sound
@@ -6,3 +7,10 @@ import LP.Props.C12
 #print axioms LP.Eval.sweepAux_mem
 #print axioms LP.Eval.C12_sweep
 #print axioms LP.Eval.cell_exists
+#print axioms LP.Eval.separate_spec
+#print axioms LP.Eval.samples_spec
+#print axioms LP.Eval.sign_const
+#print axioms LP.Eval.cellSign_correct
+#print axioms LP.Eval.C12_feasible_exact
+#print axioms LP.Eval.identicallyZero_sound
+#print axioms LP.Eval.C12_feasible_exact_zero
